@@ -615,7 +615,7 @@ def oracle(ctx, deep=False, broken=None):
             if got != [want]:
                 fails.append({'input': {'class': cls, 'size': list(size), 'recorded': True,
                                         'batch_sizes': [list(x) for x in sizes]},
-                              'observed': f'results file of a batch over sizes {sizes} records (n, k, d) = {got} for '
+                              'observed': f'results file of a batch over sizes {sizes}, and the analysis reading it back, give (n, k, d) = {got} for '
                                           f'{cls}{tuple(size)}; a fresh code of that size has {want}',
                               'match': {'class': cls, 'size': list(size), 'recorded': True}})
                 break
@@ -694,6 +694,8 @@ def recorded_cases(ctx, deep):
             flat = sizes[:2]
         if flat:
             out.append((cls, flat))
+    # sizes of one class with EQUAL n and different d in one results file (a reader that keys codes by (class, n))
+    out.append(('Toric2DCode', [(2, 8), (4, 4), (8, 2)]))
     return out
 
 
@@ -719,8 +721,13 @@ def recorded_d(cls, sizes):
         mem = [sim.get_results_to_save()['inputs']['code'] for sim in b._simulations]
         b.run(1)
         doc = _json.load(open(f))
+        # ... "and used as the scaling variable in threshold fits": what the analysis reads back for each entry
+        from panqec.analysis import Analysis
+        rows = Analysis(f).get_results()
+        seen = [{'parameters': dict(r_['code_params']), 'n': r_['n'], 'k': r_['k'], 'd': r_['d']}
+                for _, r_ in rows.iterrows()]
     out = {}
-    for rec in [d_['inputs']['code'] for d_ in doc] + mem:
+    for rec in [d_['inputs']['code'] for d_ in doc] + mem + seen:
         key = tuple(rec['parameters'][a] for a in names[:len(sizes[0])])
         out.setdefault(key, set()).add((int(rec['n']), int(rec['k']), int(rec['d'])))
     return out
